@@ -3,7 +3,7 @@
 cd "$(dirname "$0")/.." || exit 2
 mkdir -p .work
 P=$1; shift
-for id in "$@"; do for i in 1 2 3; do [ -f /tmp/seed-r4/$id/$i/patch.diff ] && echo "$id $i"; done; done | \
+for id in "$@"; do for i in 1 2 3; do [ -f /tmp/seed-r4/$id/$i/patch.diff ] && [ ! -d seeded/$id-$((9+i)) ] && echo "$id $i"; done; done | \
  xargs -P $P -L1 bash -c 'id=$0; i=$1; n=$id-$((9+i)); python3 tools/keep_seed.py /tmp/seed-r4/$id/$i $n --jobs ${JOBS:-5} > .work/keep_$n.log 2>&1; echo "$n: $(tail -1 .work/keep_$n.log) $(python3 -c "
 import json,sys
 try:
